@@ -306,7 +306,7 @@ impl<'a> Gen<'a> {
         use BinOpType::*;
         let wbytes = self.w();
         self.ops += 1;
-        match self.rng.below(16) {
+        match self.rng.below(18) {
             0..=3 => {
                 let op = *self.rng.pick(&[IntAdd, IntSub, IntAnd, IntOr, IntXOr, IntAdd, IntSub]);
                 let c = self.small_const();
@@ -359,6 +359,27 @@ impl<'a> Gen<'a> {
             12 if !self.written.is_empty() => {
                 let slot = *self.rng.pick(&self.written);
                 self.load_back(defs, w, slot);
+            }
+            15 | 16 if self.slot_pool.len() >= 2 => {
+                // neighbour pattern: write slot A, then write a neighbouring (never overlapping) slot B, then read A back
+                let i = self.rng.usize_below(self.slot_pool.len() - 1);
+                let (first, second) = if self.rng.bool() { (self.slot_pool[i], self.slot_pool[i + 1]) } else { (self.slot_pool[i + 1], self.slot_pool[i]) };
+                for (k, slot) in [first, second].into_iter().enumerate() {
+                    let (off, size) = slot;
+                    let value = if k == 0 {
+                        if size == wbytes { self.er(w) } else { e_subpiece(0, size, self.er(w)) }
+                    } else {
+                        let c = self.rng.range_i64(0, 0x7fff);
+                        Expression::Const(crate::conv::bv_i(c, size))
+                    };
+                    let a = self.slot_addr(off);
+                    let d = store(self.t("c"), a, value);
+                    self.emit(defs, d);
+                    if !self.written.contains(&slot) {
+                        self.written.push(slot);
+                    }
+                }
+                self.load_back(defs, w, first);
             }
             13 | 14 => {
                 // push w ... pop w'
@@ -513,7 +534,19 @@ impl<'a> Gen<'a> {
         }
         // slots for round trips: above the outgoing argument area, one size per slot
         let base = self.sp + 32;
-        self.slot_pool = (0..4).map(|i| (base + 8 * i, if self.arch == Arch::X86 || self.rng.chance(1, 3) { 4 } else { 8 })).collect();
+        if self.rng.bool() {
+            self.slot_pool = (0..4).map(|i| (base + 8 * i, if self.arch == Arch::X86 || self.rng.chance(1, 3) { 4 } else { 8 })).collect();
+        } else {
+            // packed layout: slots of different sizes directly next to each other (adjacent, never overlapping)
+            let mut off = base;
+            let mut pool = Vec::new();
+            for _ in 0..4 {
+                let size: u32 = if self.arch == Arch::X86 || self.rng.bool() { 4 } else { 8 };
+                pool.push((off, size));
+                off += size as i64;
+            }
+            self.slot_pool = pool;
+        }
         if self.rng.chance(1, 3) {
             let r: &'static str = if self.arch == Arch::X64 { "RBP" } else { "EBP" };
             let d = assign(self.t("c"), self.r(r), self.er(sp));
